@@ -49,6 +49,8 @@ static inline bool qstr_lt(qstr a, qstr b)
   return r;
 }
 static inline bool qstr_gt(qstr a, qstr b) { return qstr_lt(b, a); }
+/* QString::compare(other) (case sensitive): the sign of the same order (A-STR-ORDER), 0 exactly for equal strings */
+static inline int qstr_compare(qstr a, qstr b) { return a == b ? 0 : (qstr_lt(a, b) ? -1 : 1); }
 
 qstr __CPROVER_uninterpreted_str_app(qstr s, qstr a);
 /* s ++ a (A-CONCAT) */
